@@ -353,7 +353,18 @@ func CompileList(list List) (f Object) {
 		switch ta := list[0].(type) {
 		case Symbol:
 			name := strings.ToLower(string(ta))
-			if fi := CurrentPackage.funcs[name]; fi != nil {
+			if pkg, vname, private := UnpackName(name); pkg != nil {
+				// A package qualified name, pkg:name. A placeholder in the
+				// current package under that name would never be found by
+				// the definition, so unless the function exists already
+				// and may be reached the call is left to be resolved when
+				// it is evaluated, as it is when typed at the REPL.
+				fi := pkg.funcs[vname]
+				if fi == nil || fi.Doc == nil || !(private || fi.Export || pkg == CurrentPackage) {
+					return list
+				}
+				f = fi.Create(list[1:])
+			} else if fi := CurrentPackage.funcs[name]; fi != nil {
 				f = fi.Create(list[1:])
 			} else {
 				lc := Lambda{
